@@ -169,8 +169,17 @@ pub fn compare(x: &ExpectedTx, t: &DTx, check_redeemers: bool) -> Vec<Diff> {
     if !t.other_body_keys.is_empty() {
         out.push(d("body.other_keys", "none", &t.other_body_keys, false));
     }
-    if t.certificates.is_some() {
-        out.push(d("body.certificates", "none", "present", false));
+    let got_certs: BTreeSet<Vec<u8>> = t.certificate_bytes.iter().cloned().collect();
+    if got_certs != x.certificates {
+        out.push(d(
+            "certificates",
+            x.certificates.iter().map(hex::encode).collect::<Vec<_>>(),
+            got_certs.iter().map(hex::encode).collect::<Vec<_>>(),
+            false,
+        ));
+    }
+    if got_certs.len() != t.certificate_bytes.len() {
+        out.push(d("certificates.duplicates", got_certs.len(), t.certificate_bytes.len(), false));
     }
 
     if check_redeemers && !x.redeemer_conflict {
